@@ -435,6 +435,44 @@ def check_unknown(res, T, O):
             res.violation('C18', 'C18|default_memoize|%s' % key, d, d.line if d else None, msg)
 
 
+def check_enumeration(res, T, O):
+    """obligation 8: the enumeration of valid registers (trait default CpuContext::valid_registers) lists exactly the
+    named registers: for All it walks REGISTERS; for Some(_) it walks REGISTERS too and keeps the names that
+    register_is_valid reports valid - never the strings stored in the validity set (aliases, hash order)."""
+    c = T.crate
+    f = c.fn('minidump::context::CpuContext::valid_registers')
+    nx = [g for g in c.fns if re.search(r"CpuRegisters<'_, T> as std::iter::Iterator>::next$", g.path)]
+    O['n'] += 2
+    if f is None or len(nx) != 1:
+        res.error('C18', 'CpuContext::valid_registers / CpuRegisters::next not found')
+        return
+    aggs = []
+    for b in sorted(f.reach):
+        for s_ in f.blocks[b]['s']:
+            if s_['k'] == 'assign' and s_['rv']['k'] == 'agg' and s_['rv'].get('ak') == 'adt' and s_['rv']['adt'].endswith('CpuRegistersInner'):
+                aggs.append((s_['rv'].get('variant'), [show(f.expand(f.operand_tree(x))) for x in s_['rv']['xs']], s_.get('line')))
+    REG = '(core::slice::iter (item minidump::context::CpuContext::REGISTERS))'
+    ok1 = bool(aggs) and all(xs and xs[0] == REG for v, xs, ln in aggs) and any(len(xs) == 2 and xs[1] == 'valid' for v, xs, ln in aggs)
+    if ok1:
+        O['ok'] += 1
+    else:
+        res.violation('C18', 'C18|valid_registers|set', f, f.line, 'CpuContext::valid_registers does not enumerate REGISTERS for both kinds of validity: %s (names taken from the validity set itself may be aliases, and come in hash order)' % [(v, xs) for v, xs, ln in aggs])
+    g = nx[0]
+    ok2 = False
+    for b, t in g.calls():
+        if g.callee(t).endswith('Iterator>::find'):
+            tr = g.expand(g.call_tree(t))
+            if tr[3][0] == 'closure':
+                h = c.fn(tr[3][1])
+                rets = [show(h.expand(t2)) for (_, _, t2) in ret_assigns(h)] if h is not None else []
+                ok2 = rets == ['(minidump::context::CpuContext::register_is_valid context reg valid)'] and [show(x) for x in tr[3][2:]] == ['self.context', '(Valid.1 self.regs)']
+    others = [g.callee(t) for b, t in g.calls() if re.search(r'hash_set|HashSet', g.callee(t) or '')]
+    if ok2 and not others:
+        O['ok'] += 1
+    else:
+        res.violation('C18', 'C18|valid_registers|next', g, g.line, 'CpuRegisters::next does not filter REGISTERS with register_is_valid(context, reg, valid)')
+
+
 def run(tier, t0):
     res = harness.Result(PID)
     prog = program()
@@ -453,6 +491,7 @@ def run(tier, t0):
         per[ctx] = check_context(res, T, ctx, byctx[ctx], O) or {}
     check_dispatch(res, T, per, O)
     check_unknown(res, T, O)
+    check_enumeration(res, T, O)
     nreg = sum(len(v.get('regs', [])) + len(v.get('aliases', {})) for v in per.values())
     res.rule('C18', O['n'], floor=900, discharged=O['ok'], note='per-name, per-context and dispatcher obligations over %d register names of %d contexts' % (nreg, len(per)))
     res.extra['register_names'] = nreg
